@@ -409,6 +409,16 @@ class Interp:
         """a theory model of a library function: a value outside its vocabulary (a real library object reaching theory code) makes
         the call UNDECIDED, never a checker crash - as for theory methods called directly"""
         try:
+            import inspect as _inspect
+
+            try:
+                _inspect.signature(m).bind(self, *args, **kwargs)
+            except TypeError as e:
+                # the code under contract calls the callee with arguments its interface contract (the model) does not know: the
+                # callee's interface is not the one that was specified - undecided, not a crash of the checker
+                raise Unsupported(f"call of {getattr(fn, '__qualname__', getattr(fn, '__name__', fn))} does not fit the interface its contract states: {e}")
+            except ValueError:
+                pass  # (no signature available: builtins)
             return m(self, *args, **kwargs)
         except (AttributeError, IndexError, KeyError, TypeError) as e:
             if _raised_inside_theory(e):
